@@ -46,6 +46,9 @@ def generate(rng, tier, index, only=None):
     sc.update(P.gen_naming(rng))
     sc.update(pl.gen(rng, sc))
     sc["configs"] = gen_configs(rng, pl.size(sc), pl.POOLED)
+    if sc.get("huge"):
+        sc["configs"] = sc["configs"][:2]
+        sc["configs"][1][2] = sc["configs"][1][2] + [0] * 0
     return sc
 
 
